@@ -101,6 +101,29 @@ def check_case(ctx, pm, case, tmpdir):
         ctx.note_add("write_refused")
         ctx.note("write_refused_example", "%s: %s" % (type(e).__name__, e))
         return False
+    # the same object written again with ANOTHER main variant and then again as requested: the last text must equal the
+    # first (what is written depends on the object and the requested main variant only, not on earlier writes)
+    others = [u for u in sorted(v["uid"] for v in D["variants"]) if u != main] + ([None] if main is not None else [])
+    if others:
+        try:
+            o2 = io.StringIO()
+            ti.dump(o2, main_variant=others[case["order_seed"] % len(others)])
+            o3 = io.StringIO()
+            ti.dump(o3, main_variant=main)
+            again = o3.getvalue()
+        except Exception as e:
+            again = "raised %s: %s" % (type(e).__name__, e)
+        bad = again != textout
+        ctx.monitor("write-independent-of-earlier-writes", fired=bad)
+        if bad:
+            g1 = F.read_ini(textout)[0].get("general", {}) if isinstance(again, str) else {}
+            try:
+                g2 = F.read_ini(again)[0].get("general", {})
+            except Exception:
+                g2 = again[:200]
+            ctx.violation("write-independent-of-earlier-writes", "the [general] section depends on the tree and the requested main variant only, "
+                          "not on what was requested in an earlier write of the same object", case,
+                          observed={"after another write": g2}, expected={"first write": g1})
     sections, _ = F.read_ini(textout)
     g = sections.get("general")
     arch = D["tree"]["arch"]
